@@ -8,10 +8,13 @@
     statements top-down (no index arithmetic of `forward`), every old statement gets a provenance
     (kept at new path | replaced by edit c | under a replaced statement) and whatever the real code
     resolves to is judged against that.
-(c) end to end: generated @fp.fpy programs with unique literal tags, every aimable strategy of
-    fpy2.strategies: listing / refusals / where=j for j in [-1..k+1] / where=None / where=True, the
-    reported edits judged against the real result tree, and cursors taken before 1-3 strategy
-    applications, forwarded with `Function.forward` and judged by composing provenances.
+(c) end to end (harness/c19e2e.py): generated @fp.fpy programs in which every statement and call site is
+    uniquely tagged, every aimable pass of fpy2.strategies and user Rewrite rules (statement rules whose sides
+    differ in length both ways, an expression rule), insert_round on monomorphized programs, the passes that
+    report edits without taking a `where`, and the opaque ones: the REPORTED edit logs are judged against the real
+    result tree by tag conservation, listings against index aiming against cursor aiming by recognising the
+    transformed site by content, every statement / expression cursor is forwarded across every application, and
+    chains of 1-3 passes are judged by composing the per-step provenances.
 """
 from __future__ import annotations
 import importlib, os, re, shutil, sys, tempfile, time, traceback
@@ -494,7 +497,13 @@ def synthetic(rep, R, tier, lines, post):
             if opaque:
                 funcs.append(funcs[-1].with_ast(ast)); parts += ['N', tree_tok(nxt)]; provs.append(None)
             else:
-                log = EditLog(funcs[-1].ast, ast, tuple(Edit(real_bp(bp), a, r, m) for bp, a, r, m in edits), (), True)
+                try:
+                    log = EditLog(funcs[-1].ast, ast, tuple(Edit(real_bp(bp), a, r, m) for bp, a, r, m in edits), (), True)
+                except (ValueError, TransformError) as e:
+                    rep.violation(f'a log of disjoint in-range edits was rejected: {e}',
+                                  {'source': tree_tok(prev), 'log': log_tok(edits), 'result': tree_tok(nxt)})
+                    funcs.append(funcs[-1].with_ast(ast)); parts += ['N', tree_tok(nxt)]; provs.append(None)
+                    trees.append(nxt); continue
                 funcs.append(funcs[-1].with_edits(log)); parts += [log_tok(edits), tree_tok(nxt)]
                 provs.append((edits, prov, runs))
             trees.append(nxt)
@@ -725,58 +734,6 @@ def judge_where(rep, line, got, info):
 # ---------------------------------------------------------------------------
 # (c) end to end on generated programs
 
-HELPER = '''
-@fp.fpy
-def helper(a: fp.Real) -> fp.Real:
-    b = a * 2
-    return b + 1
-'''
-
-def gen_program(R, name, tags):
-    """source of a program: every statement carries a unique literal tag where the syntax has room"""
-    lines = ['@fp.fpy(ctx=fp.REAL)', f'def {name}(xs: list[fp.Real], x: fp.Real) -> fp.Real:', f'    acc = x + {next(tags)}']
-    budget = [R.randint(5, 14)]
-    def block(ind, depth):
-        n = R.randint(1, 3)
-        pad = '    ' * ind
-        for _ in range(n):
-            budget[0] -= 1
-            k = R.random()
-            if depth >= 3 or budget[0] <= 0 or k < 0.24:
-                if R.random() < 0.25:
-                    lines.append(f'{pad}acc = acc + helper(acc + {next(tags)})')
-                else:
-                    lines.append(f'{pad}acc = acc + {next(tags)}')
-            elif k < 0.42:
-                t = next(tags)
-                it = R.choice(['xs', 'xs', f'[{t}.0, 1.0, 2.0]', f'[{t}.0, 1.0, 2.0, 3.0]', f'[{t}.0, 2.0]'])
-                lines.append(f'{pad}for a{depth} in {it}:')
-                block(ind + 1, depth + 1)
-            elif k < 0.54:
-                lines.append(f'{pad}while acc < {next(tags)}:')
-                block(ind + 1, depth + 1)
-            elif k < 0.62:
-                lines.append(f'{pad}if acc > {next(tags)}:')
-                block(ind + 1, depth + 1)
-                lines.append(f'{pad}else:')
-                block(ind + 1, depth + 1)
-            elif k < 0.7:
-                lines.append(f'{pad}if acc > {next(tags)}:')
-                block(ind + 1, depth + 1)
-            else:
-                ctx = R.choice(['fp.FP16', 'fp.FP32', 'fp.FP64', 'fp.FixedContext(True, -4, 12)', 'fp.REAL', 'fp.FP16'])
-                lines.append(f'{pad}with {ctx}:')
-                pv = None
-                for _ in range(R.choice([1, 1, 2])):
-                    pv = f'p{next(tags)}'
-                    lines.append(f'{pad}    {pv} = fp.round({R.choice(["acc", "x"])})')
-                if R.random() < 0.5:
-                    lines.append(f'{pad}q{next(tags)} = {pv} * {pv}')
-    while budget[0] > 0:
-        block(1, 0)
-    lines.append(f'    return acc + {next(tags)}')
-    return '\n'.join(lines) + '\n'
-
 def header(s):
     """first line of the statement's text: its own expressions"""
     return s.format().split('\n', 1)[0].strip()
@@ -794,77 +751,6 @@ def shape(block):
 def real_edits(log):
     return [(unreal_bp(e.block_path), e.index, e.removed, e.inserted) for e in log.edits]
 
-def check_step(rep, name, f, g, replay):
-    """the reported edits account for the difference between f and g: every statement the edits do
-    not touch sits where the Spec puts it, is of the same kind and (where the pass claims expressions
-    preserved) has the same header text; block lengths agree.  Returns (edits, prov, runs, S, T)."""
-    S, T = shape(f.ast.body), shape(g.ast.body)
-    edits = real_edits(g.edits)
-    if not py_wf(S, edits):
-        rep.violation(f'{name}: the pass reported edits that are out of range or overlap', dict(replay, edits=str(g.edits.edits)))
-        return None
-    marker = object()
-    Rt, prov, runs = spec_apply(S, edits, lambda pos: [('L', marker)] * edits[pos][3])
-    dirty = {unreal_sp(p) for p in g.edits.exprs_rewritten}
-    bad = []
-    def cmp(spec_blk, real_blk, nbp):
-        if len(spec_blk) != len(real_blk):
-            bad.append(f'block {bp_tok(nbp)} has {len(real_blk)} statements, the reported edits give {len(spec_blk)}')
-            return
-        for j, (a, b) in enumerate(zip(spec_blk, real_blk)):
-            if a[1] is marker: continue
-            if a[0] != b[0] or type(a[1]) is not type(b[1]):
-                bad.append(f'{path_tok((nbp, j))}: kind changed {type(a[1]).__name__} -> {type(b[1]).__name__}'); continue
-            for (fa, ca), (fb, cb) in zip(children(a), children(b)):
-                cmp(ca, cb, nbp + ((j, fa),))
-    cmp(Rt, T, ())
-    # header text of kept statements
-    for old, v in prov.items():
-        if v[0] != 'kept': continue
-        # skip those under a replaced ancestor
-        bp = old[0]
-        if any(prov.get((bp[:d], bp[d][0]), ('gone',))[0] != 'kept' for d in range(len(bp))): continue
-        a = node_at(S, old); b = node_at(T, v[1])
-        if b is None: continue
-        if old in dirty or not g.edits.exprs_preserved:
-            rep.count('e2e:header-not-compared'); continue
-        if header(a[1]) != header(b[1]):
-            bad.append(f'untouched statement {path_tok(old)} `{header(a[1])}` became `{header(b[1])}` at {path_tok(v[1])}')
-    if bad:
-        rep.violation(f'{name}: statements the reported edits did not touch are not unchanged: ' + '; '.join(bad[:3]),
-                      dict(replay, edits=str(g.edits.edits)))
-    return edits, prov, runs, S, T
-
-def strat_table():
-    Int2 = A.Integer(2, None)
-    return [
-        # name, callable(f, where), sites kwargs, candidate kind, statement-sited
-        ('unroll_for', lambda f, w: st.unroll_for(f, where=w), {}, A.ForStmt, True),
-        ('unroll_for(times=2)', lambda f, w: st.unroll_for(f, where=w, times=2), {'times': 2}, A.ForStmt, True),
-        ('unroll_for(STRICT)', lambda f, w: st.unroll_for(f, where=w, times=1, strategy=ForUnrollStrategy.STRICT),
-         {'times': 1, 'strategy': ForUnrollStrategy.STRICT}, A.ForStmt, True),
-        ('unroll_while', lambda f, w: st.unroll_while(f, where=w), {}, A.WhileStmt, True),
-        ('unroll_while(times=2)', lambda f, w: st.unroll_while(f, where=w, times=2), {}, A.WhileStmt, True),
-        ('split(2)', lambda f, w: st.split(f, 2, where=w), {'factor': Int2}, A.ForStmt, True),
-        ('split(2,STRICT)', lambda f, w: st.split(f, 2, where=w, strategy=SplitLoopStrategy.STRICT),
-         {'factor': Int2, 'strategy': SplitLoopStrategy.STRICT}, A.ForStmt, True),
-        ('unfold_special', lambda f, w: st.unfold_special(f, where=w), {}, 'round', True),
-        ('unfold_neg_zero', lambda f, w: st.unfold_neg_zero(f, where=w), {}, 'round', True),
-        ('unfold_overflow', lambda f, w: st.unfold_overflow(f, where=w), {}, 'round', True),
-        ('float_to_fixed', lambda f, w: st.float_to_fixed(f, where=w), {}, 'round', True),
-        ('rescale_fixed', lambda f, w: st.rescale_fixed(f, where=w), {}, 'round', True),
-        ('inline', lambda f, w: st.inline(f, where=w), {}, None, False),
-        ('insert_round(FP64)', lambda f, w: st.insert_round(f, where=w, ctx=fp.FP64), {'ctx': fp.FP64}, None, False),
-    ]
-
-STRAT_FN = {
-    'unroll_for': st.unroll_for, 'unroll_for(times=2)': st.unroll_for, 'unroll_for(STRICT)': st.unroll_for,
-    'unroll_while': st.unroll_while, 'unroll_while(times=2)': st.unroll_while, 'split(2)': st.split,
-    'split(2,STRICT)': st.split, 'unfold_special': st.unfold_special, 'unfold_neg_zero': st.unfold_neg_zero,
-    'unfold_overflow': st.unfold_overflow, 'float_to_fixed': st.float_to_fixed, 'rescale_fixed': st.rescale_fixed,
-    'inline': st.inline, 'insert_round(FP64)': st.insert_round,
-}
-
 def is_round_block(s):
     """independent re-statement of the structural match the rounding rewrites count"""
     if not isinstance(s, A.ContextStmt) or not isinstance(s.target, A.UnderscoreId): return False
@@ -878,272 +764,14 @@ def beneath_py(p, q):
     if p == q: return True
     return len(p[0]) > len(q[0]) and p[0][:len(q[0])] == q[0] and p[0][len(q[0])][0] == q[1]
 
-def outermost(paths):
-    return [p for p in paths if not any(o != p and beneath_py(p, o) for o in paths)]
-
-def e2e_cursor_where(rep, R, name, call, f, S, sp, rp, replay, evals):
-    skw_of = {t[0]: t[2] for t in strat_table()}
-    """where = a cursor of an arbitrary statement: every listed site at or beneath it, nothing else;
-    nothing beneath: reference error, or TransformDeclined when a refused candidate lies beneath"""
-    allp = [p for p, _ in walk(S)]
-    near = [q for q in allp if any(beneath_py(p, q) for p in sp + rp)]
-    picks = R.sample(allp, min(2, len(allp))) + R.sample(near, min(3, len(near)))
-    for qi, q in enumerate(picks):
-        evals[0] += 1
-        sel = [p for p in sp if beneath_py(p, q)]
-        refb = [p for p in rp if beneath_py(p, q)]
-        rp2 = dict(replay, where=f'StmtCursor({path_tok(q)})')
-        # `within` narrows both listings to the points at or beneath the cursor
-        try:
-            if qi not in (0, 2): raise StopIteration
-            fn, skw = STRAT_FN[name], skw_of[name]
-            ws = [unreal_sp(c.path) for c in st.sites(fn, f, within=StmtCursor(f.ast, real_sp(q)), **skw)]
-            wr = [unreal_sp(c.path) for c, _ in st.refusals(fn, f, within=StmtCursor(f.ast, real_sp(q)), **skw)]
-            rep.count('e2e:within')
-            if ws != sel or wr != refb:
-                rep.violation(f'{name}: sites/refusals within {path_tok(q)} are {[path_tok(p) for p in ws]} / {[path_tok(p) for p in wr]}, '
-                              f'the listed ones at or beneath it are {[path_tok(p) for p in sel]} / {[path_tok(p) for p in refb]}', rp2)
-        except StopIteration:
-            pass
-        except Exception as e:   # noqa
-            rep.count(f'e2e:{name}:within-failed:{type(e).__name__}')
-        try:
-            g = call(f, StmtCursor(f.ast, real_sp(q)))
-        except st.TransformDeclined as e:
-            rep.count('e2e:cursor-where:declined')
-            if sel or not refb:
-                rep.violation(f'{name}: a cursor with sites {[path_tok(p) for p in sel]} and refusals {[path_tok(p) for p in refb]} beneath it declined', dict(rp2, error=str(e)))
+def outermost_regions(regs):
+    """regions (block path, lo, hi) not beneath another of the regions"""
+    out = []
+    for r in regs:
+        if any(o != r and all(any(beneath_py((r[0], i), (o[0], k)) for k in range(o[1], o[2])) for i in range(r[1], r[2])) for o in regs):
             continue
-        except TransformReferenceError as e:
-            rep.count('e2e:cursor-where:nothing-beneath')
-            if sel or refb:
-                rep.violation(f'{name}: a cursor with sites {[path_tok(p) for p in sel]} / refusals {[path_tok(p) for p in refb]} beneath it was rejected as naming nothing', dict(rp2, error=str(e)))
-            continue
-        except Exception as e:   # noqa
-            rep.count(f'e2e:{name}:cursor-where-failed:{type(e).__name__}'); continue
-        rep.count('e2e:cursor-where:selected')
-        if not sel:
-            rep.violation(f'{name}: a cursor with no site beneath it was accepted; edits {g.edits.edits}', rp2); continue
-        r = check_step(rep, f'{name}(where=cursor {path_tok(q)})', f, g, rp2)
-        if r is None: continue
-        got = sorted((e[0], e[1]) for e in r[0] if e[2])
-        if got != sorted(outermost(sel)):
-            rep.violation(f'{name}: cursor {path_tok(q)} must rewrite the sites beneath it {[path_tok(p) for p in outermost(sel)]}; reported {g.edits.edits}', rp2)
-
-def e2e_rebase(rep, R, f, S, replay, evals):
-    """a cursor taken on f and handed as `where` to a strategy applied to a LATER program is forwarded
-    first: the rewrite must hit the descendant of the statement the cursor named"""
-    table = [t for t in strat_table() if t[4]]
-    for _ in range(3):
-        nameA, callA, skwA, _, _ = R.choice(table)
-        nameB, callB, skwB, _, _ = R.choice(table)
-        try:
-            sa = st.sites(STRAT_FN[nameA], f, **skwA); sb = st.sites(STRAT_FN[nameB], f, **skwB)
-        except Exception:   # noqa
-            continue
-        if not sa or not sb: continue
-        ja = R.randrange(len(sa)); cb = R.choice(sb)
-        rp = dict(replay, strategy=f'{nameA}(where={ja}) then {nameB}(where=<cursor {path_tok(unreal_sp(cb.path))} of the first program>)')
-        try:
-            g = callA(f, ja); evals[0] += 1
-        except Exception:   # noqa
-            continue
-        r = check_step(rep, nameA, f, g, rp)
-        if r is None: continue
-        edits, prov, runs, _, T = r
-        q = unreal_sp(cb.path)
-        exp = compose([(edits, prov, runs)], [S], q)
-        try:
-            h = callB(g, cb); evals[0] += 1
-        except TransformError as e:
-            rep.count('e2e:rebase:error')
-            if exp[0] == 'paths' and len(exp[1]) == 1 and prov.get(q, ('gone',))[0] == 'kept' and not any(e2[0][:len(exp[1][0][0]) + 1] == exp[1][0][0] + ((exp[1][0][1], e2[0][len(exp[1][0][0])][1]),) for e2 in edits if len(e2[0]) > len(exp[1][0][0])):
-                # the site is untouched and nothing changed beneath it: it must still be a site
-                sites_g = [unreal_sp(c.path) for c in st.sites(STRAT_FN[nameB], g, **skwB)]
-                if exp[1][0] in sites_g:
-                    rep.violation(f'an earlier cursor naming an untouched site was rejected: {e}', rp)
-            continue
-        except Exception as e:   # noqa
-            rep.count(f'e2e:rebase-failed:{type(e).__name__}'); continue
-        rep.count('e2e:rebase:applied')
-        if exp[0] == 'error':
-            rep.violation(f'a cursor whose statement was rebuilt was accepted as `where`; edits {h.edits.edits}', rp); continue
-        got = [(e.block_path, e.index) for e in h.edits.edits if e.removed]
-        got = [(unreal_bp(b), i) for b, i in got]
-        if not all(any(beneath_py(x, d) for d in exp[1]) for x in got):
-            rep.violation(f'aimed with an earlier cursor whose descendants are {[path_tok(d) for d in exp[1]]}, the rewrite touched {[path_tok(x) for x in got]}', rp)
-
-def e2e_where(rep, R, prog_name, src, f, evals):
-    S = shape(f.ast.body)
-    order = [p for p, _ in walk(S)]
-    for name, call, skw, kind, stmt_sited in strat_table():
-        fn = STRAT_FN[name]
-        replay = {'program': src, 'strategy': name}
-        try:
-            ss = st.sites(fn, f, **skw)
-            rr = st.refusals(fn, f, **skw)
-        except Exception as e:   # noqa
-            rep.count(f'e2e:{name}:listing-failed:{type(e).__name__}'); continue
-        k = len(ss)
-        evals[0] += 1
-        rep.count(f'e2e:{name}:k={min(k, 4)}{"+" if k > 4 else ""}')
-        if rr: rep.count(f'e2e:{name}:refusals')
-        if stmt_sited:
-            sp = [unreal_sp(c.path) for c in ss]
-            rp = [unreal_sp(c.path) for c, _ in rr]
-            if sorted(sp, key=order.index) != sp or len(set(sp)) != len(sp):
-                rep.violation(f'{name}: the listing is not in visit order / has duplicates', dict(replay, sites=[path_tok(p) for p in sp]))
-            if set(sp) & set(rp):
-                rep.violation(f'{name}: a point is both a site and a refusal', dict(replay))
-            if kind is not None:
-                cand = [p for p, n in walk(S) if (is_round_block(n[1]) if kind == 'round' else isinstance(n[1], kind))]
-                if set(cand) != set(sp) | set(rp):
-                    rep.violation(f'{name}: considered points {[path_tok(p) for p in cand]} are not all listed as a site or explained as a refusal: '
-                                  f'sites {[path_tok(p) for p in sp]}, refusals {[path_tok(p) for p in rp]}', dict(replay))
-        else:
-            sp = [unreal_sp(c.path.stmt()) for c in ss]
-        # where = None
-        try:
-            g = call(f, None); evals[0] += 1
-        except Exception as e:   # noqa
-            rep.count(f'e2e:{name}:where=None-failed:{type(e).__name__}')
-            g = None
-        if g is not None:
-            r = check_step(rep, f'{name}(where=None)', f, g, dict(replay, where=None))
-            if r is not None:
-                edits, prov, runs, _, _ = r
-                dirty = {unreal_sp(p) for p in g.edits.exprs_rewritten}
-                for j, p in enumerate(sp):
-                    hit = prov.get(p, ('gone',))[0] == 'gone' or p in dirty or \
-                        any(prov.get((p[0][:d], p[0][d][0]), ('gone',))[0] != 'kept' for d in range(len(p[0])))
-                    if not hit:
-                        rep.violation(f'{name}: where=None left listed site {j} ({path_tok(p)}) untouched', dict(replay, edits=str(g.edits.edits)))
-                if stmt_sited:
-                    for e in edits:
-                        if e[2] and (e[0], e[1]) not in sp:
-                            rep.violation(f'{name}: where=None rewrote {path_tok((e[0], e[1]))}, which is not a listed site', dict(replay, edits=str(g.edits.edits)))
-                    if k == 0 and edits:
-                        rep.violation(f'{name}: no sites listed but where=None reported edits', dict(replay, edits=str(g.edits.edits)))
-        # where = j
-        for j in list(range(-1, k + 2)) + [k + 5, True]:
-            evals[0] += 1
-            rp2 = dict(replay, where=repr(j))
-            try:
-                g = call(f, j)
-            except TypeError as e:
-                if j is not True: rep.violation(f'{name}: where={j!r} raised TypeError', dict(rp2, error=str(e)))
-                else: rep.count('e2e:bool-rejected')
-                continue
-            except TransformReferenceError as e:
-                if j is True or 0 <= j < k:
-                    rep.violation(f'{name}: where={j!r} names listed site {j} of {k} but was rejected', dict(rp2, error=str(e)))
-                else: rep.count('e2e:bad-index-rejected')
-                continue
-            except st.TransformDeclined as e:
-                rep.violation(f'{name}: where={j!r} declined although an index never names a refusal', dict(rp2, error=str(e))); continue
-            except Exception as e:   # noqa
-                rep.count(f'e2e:{name}:where=j-failed:{type(e).__name__}'); continue
-            if j is True or not (0 <= j < k):
-                rep.violation(f'{name}: where={j!r} was accepted with {k} sites', dict(rp2, edits=str(g.edits.edits))); continue
-            rep.count('e2e:index-accepted')
-            r = check_step(rep, f'{name}(where={j})', f, g, rp2)
-            if r is None: continue
-            edits = r[0]
-            if stmt_sited:
-                want = [(sp[j][0], sp[j][1], 1)]
-                if [(e[0], e[1], e[2]) for e in edits] != want:
-                    rep.violation(f'{name}: where={j} must rewrite exactly site {j} = {path_tok(sp[j])}; reported edits {g.edits.edits}', rp2)
-            else:
-                dirty = [unreal_sp(p) for p in g.edits.exprs_rewritten]
-                touched_stmts = set(dirty) | {(e[0], e[1]) for e in edits}
-                if sp[j] not in touched_stmts:
-                    rep.violation(f'{name}: where={j} did not touch the statement of site {j} ({path_tok(sp[j])}); edits {g.edits.edits}, exprs_rewritten {dirty}', rp2)
-                if len(set(dirty)) > 1 or any(e[2] for e in edits if (e[0], e[1]) != sp[j]):
-                    rep.violation(f'{name}: where={j} touched more than site {j}; edits {g.edits.edits}, exprs_rewritten {dirty}', rp2)
-            # a cursor naming the same site selects it (and whatever sits beneath it)
-            try:
-                g2 = call(f, ss[j]); evals[0] += 1
-                e2 = real_edits(g2.edits)
-                if stmt_sited and [(e[0], e[1], e[2]) for e in e2] != want:
-                    rep.violation(f'{name}: where=<cursor of site {j}> reported {g2.edits.edits}', rp2)
-            except Exception as e:   # noqa
-                rep.violation(f'{name}: where=<cursor of site {j}> failed: {type(e).__name__}: {e}', rp2)
-        if stmt_sited:
-            e2e_cursor_where(rep, R, name, call, f, S, sp, rp, replay, evals)
-    e2e_rebase(rep, R, f, S, {'program': src}, evals)
-
-def e2e_chains(rep, R, src, f0, evals, nchains):
-    table = strat_table()
-    for _ in range(nchains):
-        n = R.randint(1, 3)
-        funcs = [f0]; steps = []; desc = []
-        for i in range(n):
-            name, call, skw, kind, stmt_sited = R.choice(table)
-            f = funcs[-1]
-            try:
-                k = len(st.sites(STRAT_FN[name], f, **skw))
-            except Exception:   # noqa
-                k = 0
-            w = None if (k == 0 or R.random() < 0.4) else R.randrange(k)
-            try:
-                g = call(f, w); evals[0] += 1
-            except Exception as e:   # noqa
-                rep.count(f'e2e-chain:step-failed:{type(e).__name__}')
-                if not isinstance(e, TransformError) and len(rep.notes) < 6:
-                    rep.notes.append(f'strategy raised {type(e).__name__}: {e!r} in chain {desc + [name + "(where=" + str(w) + ")"]} on program:\n{src}\n' + traceback.format_exc()[-800:])
-                continue
-            r = check_step(rep, f'{name}(where={w})', f, g, {'program': src, 'chain': desc + [f'{name}(where={w})']})
-            if r is None: break
-            funcs.append(g); steps.append(r); desc.append(f'{name}(where={w})')
-        if len(funcs) < 2: continue
-        rep.count(f'e2e-chain:len={len(funcs) - 1}')
-        S0 = steps[0][3]
-        final_T = steps[-1][4]
-        paths = [p for p, _ in walk(S0)]
-        R.shuffle(paths)
-        for p in paths[:20]:
-            evals[0] += 1
-            replay = {'program': src, 'chain': desc, 'cursor': path_tok(p)}
-            exp = compose([(s[0], s[1], s[2]) for s in steps], [s[3] for s in steps], p)
-            old = node_at(S0, p)[1]
-            try:
-                out = funcs[-1].forward(StmtCursor(f0.ast, real_sp(p)))
-            except TransformReferenceError as e:
-                kind = classify(e)
-                rep.count('e2e-chain:error:' + kind)
-                if exp[0] == 'paths' and len(exp[1]) == 1:
-                    rep.violation(f'cursor {path_tok(p)} `{header(old)}` has one descendant {path_tok(exp[1][0])} but forwarding failed: {e}', replay)
-                continue
-            except Exception as e:   # noqa
-                rep.violation(f'forwarding {path_tok(p)} raised {type(e).__name__}: {e}', replay); continue
-            got = out.resolve() if isinstance(out, BlockCursor) else [out.resolve()]
-            if out.func is not funcs[-1].ast:
-                rep.violation('the forwarded cursor is not a cursor of the final program', replay)
-            if exp[0] == 'error':
-                rep.violation(f'cursor {path_tok(p)} `{header(old)}` was deleted or rebuilt along the chain but resolved to `{[header(s) for s in got]}`', replay)
-                continue
-            want = [node_at(final_T, q)[1] for q in exp[1]]
-            rep.count(f'e2e-chain:descendants={min(len(want), 3)}')
-            if [id(s) for s in got] != [id(s) for s in want]:
-                rep.violation(f'cursor {path_tok(p)} `{header(old)}` resolved to `{[header(s) for s in got]}`, its descendants are `{[header(s) for s in want]}`', replay)
-            elif len(want) == 1 and all(prov_kept(s, q) for s, q in zip(steps, chain_paths(steps, p))):
-                # untouched all along: the very statement, tag identity
-                ta, tb = re.findall(r'\b1\d{3,}\b', header(old)), re.findall(r'\b1\d{3,}\b', header(got[0]))
-                dirty_any = any(q in {unreal_sp(x) for x in g.edits.exprs_rewritten} for g, q in zip(funcs[1:], chain_paths(steps, p)))
-                if ta != tb and not dirty_any:
-                    rep.violation(f'untouched cursor {path_tok(p)} `{header(old)}` resolved to a statement tagged `{header(got[0])}`', replay)
-                rep.count('e2e-chain:untouched-tag-identity')
-        # an opaque pass in between stops the walk
-        if R.random() < 0.3:
-            try:
-                h = st.simplify(funcs[-1]); evals[0] += 1
-                try:
-                    h.forward(StmtCursor(f0.ast, real_sp(paths[0])))
-                    rep.violation('a cursor crossed `simplify`, which reports no edits', {'program': src, 'chain': desc + ['simplify']})
-                except TransformReferenceError:
-                    rep.count('e2e-chain:opaque-stops')
-            except Exception:   # noqa
-                rep.count('e2e-chain:simplify-failed')
+        if r not in out: out.append(r)
+    return out
 
 def chain_paths(steps, p):
     """the path of p's (single) image before each step, while it stays 'kept'"""
@@ -1157,39 +785,6 @@ def chain_paths(steps, p):
 def prov_kept(step, q):
     v = step[1].get(q)
     return v is not None and v[0] == 'kept'
-
-def end_to_end(rep, R, tier, tmp):
-    nprog = 22 if tier == 'quick' else 320
-    nchains = 6 if tier == 'quick' else 14
-    tags = tagger(1000)
-    srcs = {}
-    text = 'import fpy2 as fp\n' + HELPER
-    names = []
-    for i in range(nprog):
-        nm = f'prog{i}'
-        src = gen_program(R, nm, tags)
-        srcs[nm] = src; text += '\n' + src; names.append(nm)
-    modname = f'c19gen_{os.getpid()}_{rep.seed}_{tier}'
-    with open(os.path.join(tmp, modname + '.py'), 'w') as fh:
-        fh.write(text)
-    sys.path.insert(0, tmp)
-    try:
-        mod = importlib.import_module(modname)
-    finally:
-        sys.path.remove(tmp)
-    evals = [0]
-    t0 = time.time()
-    limit = 38 if tier == 'quick' else 700
-    for nm in names:
-        if time.time() - t0 > limit:
-            rep.notes.append(f'end-to-end stopped after {names.index(nm)} programs (time budget)'); break
-        f = getattr(mod, nm)
-        rep.count('e2e:programs')
-        rep.sample({'program': srcs[nm][:400]}, cap=3)
-        rep.distinct.add(('prog', srcs[nm]))
-        e2e_where(rep, R, nm, srcs[nm], f, evals)
-        e2e_chains(rep, R, srcs[nm], f, evals, nchains)
-    return evals[0]
 
 # ---------------------------------------------------------------------------
 
@@ -1226,6 +821,7 @@ def run(rep, tier, seed):
             elif kind == 'chain': judge_chain(rep, line, got, info)
             elif kind == 'where': judge_where(rep, line, got, info)
             rep.sample({'line': line, 'impl': got, 'model': mod})
+        from c19e2e import end_to_end
         n_e2e = end_to_end(rep, R, tier, tmp)
         rep.cov['evaluations'] = len(lines) + n_e2e
         rep.cov['model_lines'] = len(lines)
@@ -1236,9 +832,13 @@ def run(rep, tier, seed):
             'replaced statement, negative counts, block paths naming nothing, duplicates) or lying (result tree not the edited '
             'source) x every kind of cursor (valid/invalid statement paths, regions incl. empty/out of range, cursor of the '
             'other program) against the real EditLog/Function.forward; chains of 1-3 logs incl. opaque steps; the where '
-            'vocabulary driven through the real SiteRewriter; then generated @fp.fpy programs x 14 aimable strategy '
-            'configurations x where in {None,-1..k+1,k+5,True,cursor} and cursor forwarding across 1-3 real strategy '
-            'applications judged by composed provenance; distinct = distinct (tree,log,cursor) / chain / where / program inputs')
+            'vocabulary driven through the real SiteRewriter; then (c19e2e.py) generated @fp.fpy programs in which every '
+            'statement / call site is uniquely tagged x every aimable pass (loop, rounding, inline, insert_round on '
+            'monomorphized programs, user Rewrite rules 2->3/2->1/3->2/1->2/1->1 statements and an expression rule) x where in '
+            '{None,-1..k+1,k+5,True,cursor of each site,cursor of arbitrary statements} judged by the tag oracle (reported edits vs '
+            'real tree, tag conservation, index<->listing<->cursor agreement), forwarding of every statement cursor and of '
+            'expression cursors across every application, chains of 1-3 passes incl. edit-reporting and opaque ones; '
+            'distinct = distinct (tree,log,cursor) / chain / where / program inputs')
     finally:
         shutil.rmtree(tmp, ignore_errors=True)
 
